@@ -6,14 +6,16 @@
    in PubSub/*.v and followed by Print Assumptions.
 
    Reading guide.  [run_top E fuel (init scr) ops = Some (s', t)] : the
-   outermost caller performs [ops] on a fresh EventProducer; [E] gives the
-   metadata of every event type; [scr] gives every listener the programs it
+   outermost caller performs [ops] on fresh EventProducers (every operation
+   names the producer p it is called on; producers share event types and
+   listeners); [E] gives the metadata of every event type; [scr] gives every listener the programs it
    performs from inside its successive notifications (subscribe, the
    unsubscribe forms, nested fire, raise) - so every history with re-entrant
    listeners is an instance.  The trace [t] contains, for fire invocation
    number [i] (outermost or nested): a start marker [ObsFire i ev subs]
-   ([subs] = subscribers of the type of [ev] in the state the call is made in,
-   see C08_marker_records_subscribers_at_moment_of_firing), the deliveries
+   ([subs] = subscribers, on the producer the call is made on, of the type of
+   [ev] in the state the call is made in, see
+   C08_marker_records_subscribers_at_moment_of_firing), the deliveries
    [ObsDeliver i l ev], and [ObsFireDone i] if the call returned normally.
    [dels i t] = the (listener, event) pairs delivered by invocation [i], in
    order; [notified i t] = their listeners. *)
@@ -41,12 +43,13 @@ Theorem C08_behaviour_independent_of_fuel :
 Proof. exact run_top_fuel_irrelevant. Qed.
 Print Assumptions C08_behaviour_independent_of_fuel.
 
-(* In every reachable state: no event type stored twice, no listener twice per
-   type, no empty list stored; every subscriber snapshot is duplicate-free. *)
+(* In every reachable state, for every producer: no event type stored twice,
+   no listener twice per type, no empty list stored; every subscriber snapshot
+   is duplicate-free. *)
 Theorem C08_invariant_reachable :
   forall E fuel scr ops s' t,
     run_top E fuel (init scr) ops = Some (s', t) ->
-    wf (st_subs s') /\ Forall marker_ok t.
+    wfs (st_subs s') /\ Forall marker_ok t.
 Proof. exact invariant_reachable. Qed.
 Print Assumptions C08_invariant_reachable.
 
@@ -104,24 +107,25 @@ Print Assumptions C08_nobody_else.
 (* The marker of an invocation records the subscribers of the state the call is
    made in - "at the moment of firing". *)
 Theorem C08_marker_records_subscribers_at_moment_of_firing :
-  forall E f s o ev,
-    fired_event E o = Some ev ->
+  forall E f s o p ev,
+    fired_event E o = Some (p, ev) ->
     match exec E (S f) s o with
     | Done _ t | Raised _ _ t =>
-        exists t', t = ObsFire (st_next s) ev (subscribers (st_subs s) (ev_type ev)) :: t'
+        exists t', t = ObsFire (st_next s) ev (subscribers (subs_of s p) (ev_type ev)) :: t'
     | OutOfFuel => True
     end.
 Proof. exact fire_marker_is_state. Qed.
 Print Assumptions C08_marker_records_subscribers_at_moment_of_firing.
 
-(* The same fact seen from an arbitrary state s (any subscription map, any
+(* The same fact seen from an arbitrary state s (any subscription maps, any
    pending listener programs, any nesting level): fire / fire_timed /
-   fire_event / fire_timed_event of an accepted event ev delivers ev to
-   subscribers s (type of ev), in order. *)
+   fire_event / fire_timed_event of an accepted event ev on producer p delivers
+   ev to p's subscribers of the type of ev, in order - other producers'
+   subscriptions play no role. *)
 Theorem C08_fire_delivers_snapshot_from_any_state :
-  forall E fuel s o ev,
-    fired_event E o = Some ev ->
-    let subs := subscribers (st_subs s) (ev_type ev) in
+  forall E fuel s o p ev,
+    fired_event E o = Some (p, ev) ->
+    let subs := subscribers (subs_of s p) (ev_type ev) in
     match exec E fuel s o with
     | Done s' t => dels (st_next s) t = to ev subs
     | Raised _ s' t => exists k, dels (st_next s) t = to ev (firstn k subs)
@@ -145,8 +149,8 @@ Print Assumptions C08_no_event_no_delivery.
    the producer untouched. *)
 Theorem C08_refused_fire_raises_event_error :
   forall E f s o,
-    (forall a l, o <> OAdd a l) -> (forall a l, o <> ORemove a l) -> (forall a l, o <> ORemoveAll a l) ->
-    o <> OHas -> o <> ORaise ->
+    (forall p a l, o <> OAdd p a l) -> (forall p a l, o <> ORemove p a l) -> (forall p a l, o <> ORemoveAll p a l) ->
+    (forall p, o <> OHas p) -> o <> ORaise ->
     fired_event E o = None ->
     exists k, exec E (S f) s o = Raised k s [] /\ is_event_error k = true.
 Proof. exact refused_fire_raises. Qed.
@@ -155,23 +159,25 @@ Print Assumptions C08_refused_fire_raises_event_error.
 (* ====================================================================== *)
 (* 2. Subscribing: order of subscription, duplicates ignored               *)
 (* ====================================================================== *)
+(* [unchanged s s']: every producer's map, the pending listener programs and
+   the invocation counter of s' are those of s. *)
 Theorem C08_add_listener_appends_or_ignores :
-  forall E f s et l,
-  exists s', exec E (S f) s (OAdd (Good et) (Good l)) = Done s' [] /\
+  forall E f s p et l,
+  exists s', exec E (S f) s (OAdd p (Good et) (Good l)) = Done s' [] /\
     st_scripts s' = st_scripts s /\ st_next s' = st_next s /\
-    (wf (st_subs s) -> wf (st_subs s')) /\
-    forall et', subscribers (st_subs s') et' =
-      if Nat.eqb et' et then
-        (if memb l (subscribers (st_subs s) et) then subscribers (st_subs s) et
-         else subscribers (st_subs s) et ++ [l])
-      else subscribers (st_subs s) et'.
+    (wfs (st_subs s) -> wfs (st_subs s')) /\
+    forall q et', subscribers (subs_of s' q) et' =
+      if Nat.eqb q p && Nat.eqb et' et then
+        (if memb l (subscribers (subs_of s p) et) then subscribers (subs_of s p) et
+         else subscribers (subs_of s p) et ++ [l])
+      else subscribers (subs_of s q) et'.
 Proof. exact add_op. Qed.
 Print Assumptions C08_add_listener_appends_or_ignores.
 
 Theorem C08_duplicate_subscription_ignored :
-  forall E f s et l,
-    In l (subscribers (st_subs s) et) ->
-    exec E (S f) s (OAdd (Good et) (Good l)) = Done s [].
+  forall E f s p et l,
+    In l (subscribers (subs_of s p) et) ->
+    exists s', exec E (S f) s (OAdd p (Good et) (Good l)) = Done s' [] /\ unchanged s s'.
 Proof. exact add_duplicate_ignored. Qed.
 Print Assumptions C08_duplicate_subscription_ignored.
 
@@ -179,70 +185,82 @@ Print Assumptions C08_duplicate_subscription_ignored.
 (* 3. Unsubscribing: single, absent listener, the four remove-all forms    *)
 (* ====================================================================== *)
 Theorem C08_remove_listener_removes_exactly_it :
-  forall E f s et l, wf (st_subs s) ->
-  exists s', exec E (S f) s (ORemove (Good et) (Good l)) = Done s' [] /\
-    st_scripts s' = st_scripts s /\ st_next s' = st_next s /\ wf (st_subs s') /\
-    forall et', subscribers (st_subs s') et' =
-      if Nat.eqb et' et then without l (subscribers (st_subs s) et)
-      else subscribers (st_subs s) et'.
+  forall E f s p et l, wfs (st_subs s) ->
+  exists s', exec E (S f) s (ORemove p (Good et) (Good l)) = Done s' [] /\
+    st_scripts s' = st_scripts s /\ st_next s' = st_next s /\ wfs (st_subs s') /\
+    forall q et', subscribers (subs_of s' q) et' =
+      if Nat.eqb q p && Nat.eqb et' et then without l (subscribers (subs_of s p) et)
+      else subscribers (subs_of s q) et'.
 Proof. exact remove_op. Qed.
 Print Assumptions C08_remove_listener_removes_exactly_it.
 
 Theorem C08_unsubscribing_absent_listener_harmless :
-  forall E f s et l,
-    ~ In l (subscribers (st_subs s) et) ->
-    exec E (S f) s (ORemove (Good et) (Good l)) = Done s [] /\
-    exec E (S f) s (ORemoveAll (Good et) (Good l)) = Done s [].
+  forall E f s p et l,
+    ~ In l (subscribers (subs_of s p) et) ->
+    (exists s', exec E (S f) s (ORemove p (Good et) (Good l)) = Done s' [] /\ unchanged s s') /\
+    (exists s', exec E (S f) s (ORemoveAll p (Good et) (Good l)) = Done s' [] /\ unchanged s s').
 Proof. exact remove_absent_harmless. Qed.
 Print Assumptions C08_unsubscribing_absent_listener_harmless.
 
 Theorem C08_remove_everywhere_absent_listener_harmless :
-  forall E f s l,
-    (forall et, ~ In l (subscribers (st_subs s) et)) ->
-    exec E (S f) s (ORemoveAll NoneArg (Good l)) = Done s [].
+  forall E f s p l,
+    (forall et, ~ In l (subscribers (subs_of s p) et)) ->
+    exists s', exec E (S f) s (ORemoveAll p NoneArg (Good l)) = Done s' [] /\ unchanged s s'.
 Proof. exact remove_everywhere_absent_harmless. Qed.
 Print Assumptions C08_remove_everywhere_absent_listener_harmless.
 
 Theorem C08_remove_type_without_subscribers_harmless :
-  forall E f s et, wf (st_subs s) ->
-    subscribers (st_subs s) et = [] ->
-    exec E (S f) s (ORemoveAll (Good et) NoneArg) = Done s [].
+  forall E f s p et, wfs (st_subs s) ->
+    subscribers (subs_of s p) et = [] ->
+    exists s', exec E (S f) s (ORemoveAll p (Good et) NoneArg) = Done s' [] /\ unchanged s s'.
 Proof. exact remove_type_absent_harmless. Qed.
 Print Assumptions C08_remove_type_without_subscribers_harmless.
 
-(* remove_all_listeners(event_type, listener) with each argument given or
-   None.  remove_all_spec: the types hit are all (None) or the given one; for
-   a hit type the new subscriber list is empty (listener None) or the old one
-   without the listener, others keep their order; other types are untouched. *)
+(* remove_all_listeners(event_type, listener) on producer p with each argument
+   given or None.  remove_all_spec: the types hit are all (None) or the given
+   one; for a hit type the new subscriber list is empty (listener None) or the
+   old one without the listener, others keep their order; other types and
+   other producers are untouched. *)
 Theorem C08_remove_all_four_forms :
-  forall E f s oet ol, wf (st_subs s) ->
-  exists s', exec E (S f) s (ORemoveAll (oarg oet) (oarg ol)) = Done s' [] /\
-    st_scripts s' = st_scripts s /\ st_next s' = st_next s /\ wf (st_subs s') /\
-    forall et', subscribers (st_subs s') et' =
-                remove_all_spec oet ol (subscribers (st_subs s)) et'.
+  forall E f s p oet ol, wfs (st_subs s) ->
+  exists s', exec E (S f) s (ORemoveAll p (oarg oet) (oarg ol)) = Done s' [] /\
+    st_scripts s' = st_scripts s /\ st_next s' = st_next s /\ wfs (st_subs s') /\
+    forall q et', subscribers (subs_of s' q) et' =
+      if Nat.eqb q p then remove_all_spec oet ol (subscribers (subs_of s p)) et'
+      else subscribers (subs_of s q) et'.
 Proof. exact remove_all_op. Qed.
 Print Assumptions C08_remove_all_four_forms.
 
 Theorem C08_remove_all_both_given_is_remove_listener :
-  forall E fuel s et l,
-    exec E fuel s (ORemoveAll (Good et) (Good l)) = exec E fuel s (ORemove (Good et) (Good l)).
+  forall E fuel s p et l,
+    exec E fuel s (ORemoveAll p (Good et) (Good l)) = exec E fuel s (ORemove p (Good et) (Good l)).
 Proof. exact remove_all_both_is_remove. Qed.
 Print Assumptions C08_remove_all_both_given_is_remove_listener.
 
 Theorem C08_has_listeners_iff_some_subscriber :
-  forall E f s, wf (st_subs s) ->
-  exists b, exec E (S f) s OHas = Done s [ObsHas b] /\
-    (b = true <-> exists et l, In l (subscribers (st_subs s) et)).
+  forall E f s p, wfs (st_subs s) ->
+  exists b, exec E (S f) s (OHas p) = Done s [ObsHas b] /\
+    (b = true <-> exists et l, In l (subscribers (subs_of s p) et)).
 Proof. exact has_listeners_op. Qed.
 Print Assumptions C08_has_listeners_iff_some_subscriber.
 
-(* wrongly typed arguments: EventError, producer untouched *)
+(* wrongly typed arguments: EventError, producers untouched *)
 Theorem C08_raising_call_leaves_producer_untouched :
   forall s o k s' t,
     pure_step s o = Raised k s' t ->
     s' = s /\ t = [] /\ (is_event_error k = false -> k = EUser).
 Proof. exact pure_raise_leaves_state. Qed.
 Print Assumptions C08_raising_call_leaves_producer_untouched.
+
+(* producers do not interfere: subscribing / unsubscribing on producer p
+   leaves every other producer's map as it was *)
+Theorem C08_other_producers_untouched :
+  forall s o s' t p,
+    (o = ORaise \/ exists a l, o = OAdd p a l \/ o = ORemove p a l \/ o = ORemoveAll p a l \/ o = OHas p) ->
+    pure_step s o = Done s' t ->
+    forall q, q <> p -> subs_of s' q = subs_of s q.
+Proof. exact pure_step_other_producers. Qed.
+Print Assumptions C08_other_producers_untouched.
 
 (* ====================================================================== *)
 (* 4. Payload against metadata                                             *)
@@ -301,8 +319,8 @@ Print Assumptions C08_timed_event_keeps_timestamp.
 
 (* every delivery made by fire_timed(ts, et, c) carries ts, c and et *)
 Theorem C08_fire_timed_delivers_its_timestamp :
-  forall E fuel s ts a c chk,
-    match exec E fuel s (OFireTimed ts a c chk) with
+  forall E fuel s p ts a c chk,
+    match exec E fuel s (OFireTimed p ts a c chk) with
     | Done s' t | Raised _ s' t =>
         forall l ev, In (ObsDeliver (st_next s) l ev) t ->
           ev_time ev = Some ts /\ ev_content ev = c /\ a = Good (ev_type ev)
@@ -367,22 +385,24 @@ Print Assumptions C08_created_type_checks_its_declaration.
 (* Non-vacuity: a history with re-entrant listeners and nested firing      *)
 (* ====================================================================== *)
 Definition ex_pay (n : nat) : content := mkContent n (SNonDict TInt).
-(* listener 0, when first notified, unsubscribes listener 1 from type 0 and
-   subscribes listener 3; listener 1, when first notified, fires type 1 *)
+(* two producers (0 and 1).  listener 0, when first notified, unsubscribes
+   listener 1 from type 0 on producer 0 and subscribes listener 3; listener 1,
+   when first notified, fires type 1 on producer 1 *)
 Definition ex_scripts : scripts :=
-  [ [[ORemove (Good 0) (Good 1); OAdd (Good 0) (Good 3)]];
-    [[OFire (Good 1) (ex_pay 51) true]];
+  [ [[ORemove 0 (Good 0) (Good 1); OAdd 0 (Good 0) (Good 3)]];
+    [[OFire 1 (Good 1) (ex_pay 51) true]];
     []; [] ].
 Definition ex_ops : list op :=
-  [ OAdd (Good 0) (Good 0); OAdd (Good 0) (Good 1); OAdd (Good 0) (Good 2); OAdd (Good 0) (Good 1);
-    OAdd (Good 1) (Good 2);
-    OFire (Good 0) (ex_pay 50) true;
-    OFire (Good 0) (ex_pay 52) true ].
+  [ OAdd 0 (Good 0) (Good 0); OAdd 0 (Good 0) (Good 1); OAdd 0 (Good 0) (Good 2); OAdd 0 (Good 0) (Good 1);
+    OAdd 1 (Good 1) (Good 2); OAdd 1 (Good 0) (Good 3);
+    OFire 0 (Good 0) (ex_pay 50) true;
+    OFire 0 (Good 0) (ex_pay 52) true ].
 Definition ex_ev (et n : nat) : event := mkEvent et (ex_pay n) None.
 
 (* the first fire still reaches listener 1 (subscribed at the moment of
-   firing, unsubscribed meanwhile) and not listener 3 (subscribed meanwhile);
-   the nested fire of type 1 runs in between; the second fire reaches 0, 2, 3 *)
+   firing, unsubscribed meanwhile) and not listener 3 (subscribed meanwhile, and
+   subscribed to the same type on the other producer all along); the nested
+   fire on producer 1 runs in between; the second fire reaches 0, 2, 3 *)
 Example C08_example_reentrant_history :
   exists s' t,
     run_top [None; None] (fuel_for (init ex_scripts)) (init ex_scripts) ex_ops = Some (s', t) /\
@@ -391,12 +411,12 @@ Example C08_example_reentrant_history :
     In (ObsFire 2 (ex_ev 0 52) [0; 2; 3]) t /\ In (ObsFireDone 2) t /\
     notified 0 t = [0; 1; 2] /\ notified 1 t = [2] /\ notified 2 t = [0; 2; 3] /\
     erase t =
-      [IRet; IRet; IRet; IRet; IRet;
-       IDeliver 0 0 50 None; IDeliver 1 0 50 None; IDeliver 2 1 51 None; IDeliver 2 0 50 None; IRet;
-       IDeliver 0 0 52 None; IDeliver 2 0 52 None; IDeliver 3 0 52 None; IRet].
+      [IRet; IRet; IRet; IRet; IRet; IRet;
+       IDeliver 0 0 0 50 None; IDeliver 0 1 0 50 None; IDeliver 1 2 1 51 None; IDeliver 0 2 0 50 None; IRet;
+       IDeliver 2 0 0 52 None; IDeliver 2 2 0 52 None; IDeliver 2 3 0 52 None; IRet].
 Proof.
   eexists. eexists. split; [vm_compute; reflexivity|].
-  vm_compute. repeat split; auto 20.
+  vm_compute. repeat split; try reflexivity; repeat (first [left; reflexivity|right]).
 Qed.
 
 (* the hypotheses of C08_event_accepted_iff are satisfiable, with payloads on
